@@ -190,6 +190,26 @@ theorem reindex_encode (k : Bytes → RState → RState) (sul : SULW) (recs : Li
   rw [obj_history_pure]
   exact runPure2_enter _ _ (iterPositionsSt_encode sul recs ℓ hs hne hc) ops _ _ n j hn
 
+/-- **Several objects alive at once do not see each other.**  For any number of index / reader objects, each with
+its own file object (the same bytes or different files), and every interleaving of their operations: the answers an
+object gives are exactly those of the state-free run of ITS OWN operations on ITS OWN file — the operations of the other
+objects are no-ops for it, wherever their fetches land.  (The model keeps the reader state per object, as the code does
+with instance attributes; a lazily consumed generator's j-th item is the j-th element of the complete result —
+`TD.C01.reader_history_pure` with `truncate` — so stepping it between other objects' fetches changes nothing.)  State
+shared between objects (a class-level visible record, a module-level cache, a default-argument list) falsifies this
+statement; the harness exercises it in the `multi` stream. -/
+theorem multi_object_pure (k : Bytes → RState → RState) (files : Nat → Bytes) (sts : Nat → IdxSt)
+    (ops : List (Nat × Op)) (i : Nat) :
+    outsOf i (runObjN k files sts ops) = runPure1 (files i) ((sts i).entries, (sts i).entered) (opsOf i ops) :=
+  runObjN_project k files i ops sts
+
+/-- three objects on two files, interleaved: each one's answers are those of its own history (kernel evaluation) -/
+example : outsOf 1 (runObjN (fun _ rs => rs) (fun i => if i = 2 then encode exSul [⟨false, 9, [7, 7]⟩]
+        ⟨[[⟨2, 10, 0, none, false, false, false, some 20⟩]]⟩ else encode exSul exRecs exLayout)
+      (fun _ => ⟨[], default, false⟩)
+      [(0, .enter), (1, .enter), (2, .enter), (0, .fetch 3 0 (-1)), (1, .fetch 1 0 (-1)), (2, .fetch 0 0 (-1)), (1, .iter)])
+    = runPure1 (encode exSul exRecs exLayout) ([], false) [.enter, .fetch 1 0 (-1), .iter] := by decide +kernel
+
 /-- enter, fetch, exit, re-enter, pickle, enter, fetch on the example file, second object interleaved: evaluated by
 the kernel on the stateful model -/
 example : (runObj2 (fun _ rs => rs) (encode exSul exRecs exLayout) 7 ⟨[], default, false⟩ ⟨[], default, false⟩
